@@ -1,4 +1,5 @@
 import UtpVerif.Model.VSock
+import UtpVerif.Gen.Fns
 import UtpVerif.Lemmas.Segments
 import UtpVerif.Props.C16
 /-!
@@ -109,5 +110,16 @@ theorem content_stable_under_send (s : Segments) (idx now : Nat) (h : SInv s) :
 theorem karn (g : Segment) (now : Nat) (rtt : Option Nat) (c l : Nat) (h : g.sent = .retransmitted c l) :
     g.updateRtt now rtt = rtt := by
   unfold Segment.updateRtt; simp [h]
+
+
+/-! ### Tie 1b: regenerated definitions (see DESIGN 2) -/
+
+/-- `calc_pipe_expiry` (constants.rs) is the `3/4 RTT` the recovery code and the model use. -/
+theorem generated_calc_pipe_expiry (rtt : Nat) :
+    UtpVerif.Gen.Fns.calcPipeExpiry rtt = rtt * UtpVerif.Gen.PIPE_EXPIRY_NUM / UtpVerif.Gen.PIPE_EXPIRY_DEN := rfl
+
+/-- `Recovering::cwnd()` (recovery.rs): what is left of the recovery window over the pipe estimate. -/
+theorem generated_recovering_cwnd (rec : UtpVerif.Model.Recovering) :
+    UtpVerif.Gen.Fns.recoveringCwndLeft rec.cwnd rec.pipe.pipe = UtpVerif.Model.Recovery.Recovering.cwndLeft rec := rfl
 
 end UtpVerif.Props.C06
